@@ -306,6 +306,9 @@ def match_case(draw):
     ign = draw(st.sampled_from([None, None, 'ignore_output', 'ignore_out' if c['which'] == 'match_out' else 'ignore_err']))
     if ign:
         c['opts'][ign] = True
+    if draw(st.integers(0, 2)) == 0:
+        # options that have nothing to do with it
+        c['opts']['misc_argv'] = list(c['opts'].get('misc_argv', [])) + ['--profile']
     c['kind'] = 'match'
     return c
 
